@@ -37,7 +37,7 @@ def main(pid, path):
         mod, cfg = TRACE_SPEC[fam]
         res = core.validate(mod, cfg, files, name)
     if "batch" in r["program"]:
-        res["rejections"] = [x for x in res["rejections"] if x["tid"].split("/")[0] == r["program"]["id"]]
+        res["rejections"] = [x for x in res["rejections"] if x["tid"].split("/")[0] == r["program"]["id"] or x["tid"].rsplit("/", 1)[0] == r["program"]["id"]]
     if res["rejections"]:
         rj = res["rejections"][0]
         print("replay: rejected at event %d: %s" % (rj["index"], json.dumps(rj["event"])[:500]))
